@@ -40,7 +40,7 @@ import numpy as np
 from harness import classify, export as X, progcheck as PC, programs as P, trace as T
 from harness.props_ext.rawfree import raw_eval
 
-KNOWN = ("swv-layout-drift", "take-through-broadcast", "swv-nested-wrong-values", "broadcast-axis-zero-width-chunk")
+KNOWN = ("swv-layout-drift", "take-through-broadcast", "swv-nested-wrong-values", "broadcast-axis-zero-width-chunk", "eye:offset:first-row-chunk-shorter")
 WATCHDOG_S = 20
 
 
